@@ -178,6 +178,56 @@ def r09d(ctx, rep, cr):
             rep.holds('R09d', f, 'arm ' + v, 'forward %s ↔ inverse %s' % (sorted(fwd[v]), sorted(have)))
 
 
+def r09f(ctx, rep, cr):
+    rep.rule('R09f', 'replace order: where one function both removes an index entry and adds one for the same row (tx_update and the '
+                     'UpdatedRow undo arm), for each index kind the remove precedes the add on every path (index_add is idempotent and '
+                     'index_remove unconditional, so add-then-remove deletes the only entry when old and new value are equal)')
+    pairs = (('index_remove', 'index_add'), ('btree_index_remove', 'btree_index_add'))
+    n = 0
+    targets = [(RE + 'tx_update', None)]
+    f = cr.fns.get(RE + 'apply_undo_entry')
+    adt = cr.adts.get(TM + 'UndoEntry')
+    if f is not None and adt is not None:
+        ds = lib.enum_dispatches(f, TM + 'UndoEntry')
+        if ds:
+            tg = lib.variant_targets(adt, ds[0][1])
+            tb = tg.get('UpdatedRow')
+            stop = {b for v, b in tg.items() if b != tb}
+            targets.append((RE + 'apply_undo_entry', (tb, stop)))
+    for name, arm in targets:
+        f = rep.require_fn('R09f', cr, name)
+        if f is None:
+            continue
+        blocks = None
+        if arm:
+            R = A.reachable(f, [arm[0]], cut_blocks=arm[1])
+            Ro = A.reachable(f, list(arm[1]), cut_blocks={arm[0]})
+            blocks = {b for b in R if b not in Ro}
+        dom = A.dominators(f)
+        for rem_n, add_n in pairs:
+            rems = [c for c in A.calls_to(f, RE + rem_n) if blocks is None or c.bb in blocks]
+            adds = [c for c in A.calls_to(f, RE + add_n) if blocks is None or c.bb in blocks]
+            if not rems or not adds:
+                continue
+            n += 1
+            # within one loop iteration no remove may follow an add of the same kind
+            heads = {c.bb for c in A.calls_to(f, ('re', r'Iterator>::next$'))}
+            bad = []
+            for a in adds:
+                if a.target is None:
+                    continue
+                R = A.reachable(f, [a.target], cut_blocks=heads)
+                if any(r.bb in R for r in rems):
+                    bad.append(a)
+            if bad:
+                rep.violation('R09f', f, '%s-before-%s' % (add_n, rem_n), f.loc(bad[0].line),
+                              '%s can run before %s for the same row: when the old and new indexed value are equal the idempotent add does nothing and the '
+                              'remove then deletes the row\'s only index entry' % (add_n, rem_n))
+            else:
+                rep.holds('R09f', f, '%s → %s' % (rem_n, add_n), '')
+    rep.floor('R09f', 'remove/add pairs', n, 3)
+
+
 def r09e(ctx, rep, cr):
     rep.rule('R09e', 'locks disappear: in commit and rollback, once the phase check passed, every path to any return passes '
                      'TransactionManager::release_locks and ::remove')
@@ -208,3 +258,4 @@ def run(ctx, rep):
     r09c(ctx, rep, cr)
     r09d(ctx, rep, cr)
     r09e(ctx, rep, cr)
+    r09f(ctx, rep, cr)
